@@ -36,6 +36,20 @@ def sig_of(prop: str, run: dict, verdict: dict) -> str:
     return f"{prop}/{a}:{kind}:{t}/{tags}" + (f"/crash:{crash}" if crash and prop == "C03" else "")
 
 
+def partial_frame_step(evs: List[dict]) -> int:
+    """1-based index of the first event that leaves a partial frame on a connection which is not closed in that round"""
+    for i, e in enumerate(evs):
+        for c in e.get("partial", []) or []:
+            closed = set()
+            for f in evs[i:]:
+                closed |= set(f.get("closed", []) or [])
+                if f.get("a") == "Begin" and f is not evs[i]:
+                    break
+            if c not in closed:
+                return i + 1
+    return 0
+
+
 def run_family(prop: str, fam: str, tier: str, seed: int, num: int, depth: int, nprof: int, scen=None) -> Dict[str, Any]:
     if scen is not None:
         mc = {"distinct": 0, "states": 0, "depth": 0, "wall_s": 0.0}
@@ -62,6 +76,10 @@ def run_family(prop: str, fam: str, tier: str, seed: int, num: int, depth: int, 
     nok = 0
     for r in runs:
         v = verdicts[r["tid"]]
+        # C05 whole frames (projection-level clause): a connection the manager keeps open never holds a partial frame
+        pf = partial_frame_step(r["ev"])
+        if pf and (v["res"] == "ok" or pf < v.get("step", 0)):
+            v = {"tid": v["tid"], "res": "fail", "step": pf, "props": ["C05.PartialFrame"]}
         if v["res"] == "ok":
             nok += 1
             continue
